@@ -168,3 +168,30 @@ def vacuity(res, required_actions):
     missing = [a for a in required_actions if res.coverage.get(a, (0, 0))[1] == 0]
     if missing:
         raise MachineryError(f"vacuous run: actions never taken: {missing}")
+
+
+def tlaps(module_path, same_defs_as=None, def_names=(), timeout=600):
+    """Run the TLA+ proof system on a module (in a scratch copy: tlapm writes a cache next to it).
+    Returns (obligations, proved).  same_defs_as: a module whose definitions `def_names` must be textually identical."""
+    import re as _re
+    src = open(module_path).read()
+    if same_defs_as:
+        other = open(same_defs_as).read()
+        for name in def_names:
+            m = _re.search(r"^%s\([^)]*\)\s*==.*$" % _re.escape(name), src, _re.M)
+            if not m or " ".join(m.group(0).split()) not in " ".join(other.split()):
+                raise MachineryError(f"definition of {name} in {module_path} differs from {same_defs_as}")
+    tmp = scratch("verif-tlaps-")
+    try:
+        shutil.copy(module_path, tmp)
+        p = subprocess.run(["tlapm", os.path.basename(module_path)], cwd=tmp, stdout=subprocess.PIPE, stderr=subprocess.STDOUT,
+                           text=True, timeout=timeout)
+        m = _re.search(r"All (\d+) obligations? proved", p.stdout)
+        if m:
+            return int(m.group(1)), int(m.group(1))
+        m = _re.search(r"(\d+)/(\d+) obligations? failed", p.stdout)
+        if m:
+            return int(m.group(2)), int(m.group(2)) - int(m.group(1))
+        raise MachineryError("tlapm gave no verdict:\n" + p.stdout[-1500:])
+    finally:
+        shutil.rmtree(tmp, ignore_errors=True)
